@@ -78,18 +78,21 @@ NodalRequired(g) == /\ NestedFam(g) /\ ~g.rem
 \* after points were removed by coefficient size the kept coefficients are no longer the hierarchical transform of the kept
 \* values (documented: the hierarchy is not preserved): routes that go through the values are not comparable
 ValueRoutes == {"weights_values", "diffweights_values", "integrate_qweights"}
+\* every observer requirement is evaluated (a set of truth values, not a conjunction that stops at the first failure), so that
+\* each failed one is named on the output and each property's check sees its own
 ObsOKFor(g, obs) ==
-    /\ Req(<<"obs-nodal", IF ~IsEmpty(g) /\ g.orph THEN "after-a-child-was-promoted-before-a-parent" ELSE "every-promotion-had-its-parents">>,
+    \A ok \in {
+      Req(<<"obs-nodal", IF ~IsEmpty(g) /\ g.orph THEN "after-a-child-was-promoted-before-a-parent" ELSE "every-promotion-had-its-parents">>,
            (Has(obs, "nodal") /\ Has(obs.nodal, "evaluate") /\ ~IsEmpty(g) /\ NodalRequired(g))
-            => (obs.nodal.evaluate /\ obs.nodal.batch /\ obs.nodal.fast))
-    /\ Req(<<"obs-routes", IF Has(obs, "routes") THEN {f \in DOMAIN obs.routes : obs.routes[f] = FALSE} ELSE {},
+            => (obs.nodal.evaluate /\ obs.nodal.batch /\ obs.nodal.fast)),
+      Req(<<"obs-routes", IF Has(obs, "routes") THEN {f \in DOMAIN obs.routes : obs.routes[f] = FALSE} ELSE {},
              IF ~IsEmpty(g) /\ g.orph THEN "after-a-child-was-promoted-before-a-parent" ELSE "every-promotion-had-its-parents">>,
-           Has(obs, "routes") => IF ~IsEmpty(g) /\ g.rem THEN AllTrue([f \in (DOMAIN obs.routes) \ ValueRoutes |-> obs.routes[f]]) ELSE AllTrue(obs.routes))
-    /\ Req(<<"obs-rt", IF Has(obs, "rt") THEN {f \in DOMAIN obs.rt : obs.rt[f] = FALSE} ELSE {}>>, Has(obs, "rt") => AllTrue(obs.rt))
-    /\ (Has(obs, "exact") /\ ~IsEmpty(g)) => ExactOK(g, obs.exact)
-    /\ Req(<<"obs-grad", IF Has(obs, "grad") THEN {f \in DOMAIN obs.grad : obs.grad[f] = FALSE} ELSE {}>>, Has(obs, "grad") => AllTrue(obs.grad))
-    /\ Req(<<"obs-cli", IF Has(obs, "cli") THEN {f \in DOMAIN obs.cli : obs.cli[f] = FALSE} ELSE {}>>, Has(obs, "cli") => AllTrue(obs.cli))
-    /\ Req(<<"obs-twin", IF Has(obs, "twin") THEN {f \in DOMAIN obs.twin : obs.twin[f] = FALSE} ELSE {}>>, Has(obs, "twin") => AllTrue(obs.twin))
+           Has(obs, "routes") => IF ~IsEmpty(g) /\ g.rem THEN AllTrue([f \in (DOMAIN obs.routes) \ ValueRoutes |-> obs.routes[f]]) ELSE AllTrue(obs.routes)),
+      Req(<<"obs-rt", IF Has(obs, "rt") THEN {f \in DOMAIN obs.rt : obs.rt[f] = FALSE} ELSE {}>>, Has(obs, "rt") => AllTrue(obs.rt)),
+      (Has(obs, "exact") /\ ~IsEmpty(g)) => ExactOK(g, obs.exact),
+      Req(<<"obs-grad", IF Has(obs, "grad") THEN {f \in DOMAIN obs.grad : obs.grad[f] = FALSE} ELSE {}>>, Has(obs, "grad") => AllTrue(obs.grad)),
+      Req(<<"obs-cli", IF Has(obs, "cli") THEN {f \in DOMAIN obs.cli : obs.cli[f] = FALSE} ELSE {}>>, Has(obs, "cli") => AllTrue(obs.cli)),
+      Req(<<"obs-twin", IF Has(obs, "twin") THEN {f \in DOMAIN obs.twin : obs.twin[f] = FALSE} ELSE {}>>, Has(obs, "twin") => AllTrue(obs.twin)) } : ok
 
 \* C08: once limits are stored, no needed point lies, in a limited dimension, on a level above the limit.
 \* Points loaded before the limits were (re)set may already exceed them; their descendants in OTHER directions
@@ -139,7 +142,8 @@ TMake == /\ IsEvent("make")
             THEN LET a == MakeArgs
                      T == SelectTensors(a.fam, a.rule, a.dims, a.depth, a.type, a.aw, a.ll)
                      P == Range(StOf(Ev.o).need) \cup Range(StOf(Ev.o).pts)
-                 IN Commit(Ev.o, Ok(Fresh(a.fam, a.rule, a.order, a.dims, a.outs, P, T, a.ll, a.alpha, a.beta)))
+                     f == Fresh(a.fam, a.rule, a.order, a.dims, a.outs, P, T, a.ll, a.alpha, a.beta)
+                 IN Commit(Ev.o, Ok(IF Has(Ev.a, "ta") THEN [f EXCEPT !.ta = Ev.a.ta, !.tb = Ev.a.tb] ELSE f))
             ELSE LET res == Make(G(Ev.o), MakeArgs)
                  IN \* the command-line front end passes the domain transform together with the make command
                     IF Has(Ev.a, "ta") /\ res.r = "ok" THEN Commit(Ev.o, Ok([res.g EXCEPT !.ta = Ev.a.ta, !.tb = Ev.a.tb]))
